@@ -215,6 +215,45 @@ theorem C01_misc (r : R8) (e : UInt8) (len : UInt16) (x : Arch) :
     apply UInt8.eq_of_toBitVec_eq; simp [BitVec.neg_eq_not_add]
   · simp only [exec]; split <;> rfl
 
+/-- rotates / SET / RES on a register, the accumulator rotates and DAA write the core's result back;
+    RLD / RRD write A and (HL) with the specified nibble moves (C02_rld / C02_rrd give their values) -/
+theorem C01_rot_reg (r : R8) (op : RotOp) (b : UInt8) (len : UInt16) (x : Arch) :
+    (exec (.rot op (.reg r)) len x).reg.get8 r = (rotApply op (x.reg.get8 r) x.reg.flags).1 ∧
+    (exec (.set b (.reg r)) len x).reg.get8 r = bitSet (x.reg.get8 r) b ∧
+    (exec (.res b (.reg r)) len x).reg.get8 r = bitReset (x.reg.get8 r) b ∧
+    (exec .rlca len x).reg.a = (Alu.rlca x.reg.a x.reg.flags).1 ∧ (exec .rla len x).reg.a = (Alu.rla x.reg.a x.reg.flags).1 ∧
+    (exec .rrca len x).reg.a = (Alu.rrca x.reg.a x.reg.flags).1 ∧ (exec .rra len x).reg.a = (Alu.rra x.reg.a x.reg.flags).1 ∧
+    (exec .daa len x).reg.a = (Alu.daa x.reg.a x.reg.flags).1 := by
+  refine ⟨?_, ?_, ?_, rfl, rfl, rfl, rfl, rfl⟩ <;> (cases r <;> rfl)
+
+theorem C01_rld_rrd (len : UInt16) (x : Arch) (hw : x.bus.writable x.reg.getHL) :
+    let m := x.bus.readByte x.reg.getHL
+    (exec .rld len x).reg.a.toNat = (Spec.rld x.reg.a.toNat m.toNat).1 ∧
+    ((exec .rld len x).bus.readByte x.reg.getHL).toNat = (Spec.rld x.reg.a.toNat m.toNat).2 ∧
+    (exec .rrd len x).reg.a.toNat = (Spec.rrd x.reg.a.toNat m.toNat).1 ∧
+    ((exec .rrd len x).bus.readByte x.reg.getHL).toNat = (Spec.rrd x.reg.a.toNat m.toNat).2 := by
+  obtain ⟨l1, l2, _⟩ := C02_rld x.reg.a (x.bus.readByte x.reg.getHL) x.reg.flags
+  obtain ⟨r1, r2, _⟩ := C02_rrd x.reg.a (x.bus.readByte x.reg.getHL) x.reg.flags
+  refine ⟨l1, ?_, r1, ?_⟩
+  · show ((x.bus.writeByte x.reg.getHL _).readByte x.reg.getHL).toNat = _
+    rw [Bus.readByte_writeByte_same _ _ _ hw]; exact l2
+  · show ((x.bus.writeByte x.reg.getHL _).readByte x.reg.getHL).toNat = _
+    rw [Bus.readByte_writeByte_same _ _ _ hw]; exact r2
+
+/-- ADD IX,pp / ADD IY,rr: the index register receives the 16-bit sum -/
+theorem C01_add_idx (src : R16) (len : UInt16) (x : Arch) :
+    (exec (.add16 .ix src) len x).reg.getIX.toNat = (Spec.addW 16 x.reg.getIX.toNat (x.reg.get16 src).toNat 0).r ∧
+    (exec (.add16 .iy src) len x).reg.getIY.toNat = (Spec.addW 16 x.reg.getIY.toNat (x.reg.get16 src).toNat 0).r := by
+  constructor
+  · have := (C02_add16 x.reg.getIX (x.reg.get16 src) x.reg.flags).1
+    show ((x.reg.setIX (Alu.add16 x.reg.getIX (x.reg.get16 src) x.reg.flags).1).getIX).toNat = _
+    rw [show (x.reg.setIX (Alu.add16 x.reg.getIX (x.reg.get16 src) x.reg.flags).1).getIX = _ from mkWord_hi_lo _]
+    exact this
+  · have := (C02_add16 x.reg.getIY (x.reg.get16 src) x.reg.flags).1
+    show ((x.reg.setIY (Alu.add16 x.reg.getIY (x.reg.get16 src) x.reg.flags).1).getIY).toNat = _
+    rw [show (x.reg.setIY (Alu.add16 x.reg.getIY (x.reg.get16 src) x.reg.flags).1).getIY = _ from mkWord_hi_lo _]
+    exact this
+
 /-- summary of the proved part of C01 (see the header for what is missing) -/
 theorem C01_partial (i : Instr) (len : UInt16) (x : Arch) :
     (∀ r, r ∉ regsWritten i → getReg (exec i len x) r = getReg x r) ∧
